@@ -108,6 +108,33 @@ def h_gmm_seed(E):
     return cl
 
 
+def h_gmm_twice(E, seed):
+    """ncomp_from_gmm twice in a row on the same values with the same seed: the mixture models of the second call see the
+    same generator as those of the first (the seed itself, or a generator in the same state), and the results agree."""
+    from ampycloud import layer as L
+    from models import stubs
+    N = np()
+    del N.random.log[:]
+    stubs.OPTIONS['gmm'] = pipeline.gmm_stub
+    out, seen = [], []
+    for run in range(2):
+        n0 = len(stubs.CALLS)
+        with WarningLog():
+            out.append(outcome(L.ncomp_from_gmm, N.array(pipeline.FILL_H), ncomp_max=2, min_sep=0, random_seed=seed, rescale_0_to_x=100))
+        inits = [c[3] for c in stubs.CALLS[n0:] if c[0] == 'gmm_init']
+        fits = [c[2] for c in stubs.CALLS[n0:] if c[0] == 'gmm_fit_rs']
+        seen.append([repr(f) if f is not None else repr(i) for i, f in zip(inits, fits)])
+    E.cover('mixture engaged', len(seen[0]) >= 2)
+    (k1, r1), (k2, r2) = out
+    cl = [('both calls return', k1 == 'ok' and k2 == 'ok'),
+          ('each mixture model of the second call is given the generator state its counterpart of the first call was given', seen[0] == seen[1]),
+          ('no access to the global generator', list(N.random.log) == [])]
+    if k1 == 'ok' and k2 == 'ok':
+        cl.append(('same number of components and same labels', And([same_value(r1[0], r2[0])] + [same_value(a, b) for a, b in zip(list(r1[1]), list(r2[1]))]
+                                                                   + [len(list(r1[1])) == len(list(r2[1]))])))
+    return cl
+
+
 def h_monitor(E, N_, C):
     """Whole chain: the global generator is neither read nor written."""
     N = np()
@@ -154,6 +181,8 @@ HARNESSES = [
       doc='real mocker.canonical_demo_data leaves the generator state as it found it'),
     H('H-gmm-seed', h_gmm_seed, quick=[()], thorough=[()], cover=['seed 0', 'seed > 0'], float_model='R',
       doc='real layer.ncomp_from_gmm with any seed >= 0: every GaussianMixture is given exactly that random_state'),
+    H('H-gmm-twice', h_gmm_twice, quick=[(0,), (42,)], thorough=[(0,), (42,), (2 ** 32 - 1,)], cover=['mixture engaged'], float_model='R',
+      doc='real layer.ncomp_from_gmm twice with the same concrete seed: same generator states handed to the mixture models, same result'),
     H('H-monitor', h_monitor, quick=[(1, 1), (2, 1)], thorough=[(1, 1), (2, 1), (2, 2)], cover=['ran'], float_model='R',
       doc='whole chain: numpy.random is never touched'),
     H('H-layer-monitor', h_layer_monitor, quick=[('asc',)], thorough=[('asc',), ('desc',)], cover=['mixture engaged'], float_model='R',
